@@ -261,6 +261,31 @@ pub mod tstd {
 
 pub mod spec {
     #[allow(unused_imports)] use vstd::prelude::*;
+    // R7: `E as f32` is re-written to `cast_f32(E)`; the wrapper bodies ARE the original cast.  Verus has no `usize as f32`;
+    // the results are deterministic, otherwise uninterpreted, functions of the operand.
+    pub uninterp spec fn usize_to_f32(x: usize) -> f32;
+    pub uninterp spec fn i32_to_f32(x: i32) -> f32;
+    pub uninterp spec fn u32_to_f32(x: u32) -> f32;
+    pub trait CastF32: Sized {
+        spec fn to_f32_spec(self) -> f32;
+        fn cast_f32_m(self) -> (r: f32) ensures r == self.to_f32_spec();
+    }
+    impl CastF32 for usize {
+        open spec fn to_f32_spec(self) -> f32 { usize_to_f32(self) }
+        #[verifier::external_body] fn cast_f32_m(self) -> (r: f32) { self as f32 }
+    }
+    impl CastF32 for i32 {
+        open spec fn to_f32_spec(self) -> f32 { i32_to_f32(self) }
+        #[verifier::external_body] fn cast_f32_m(self) -> (r: f32) { self as f32 }
+    }
+    impl CastF32 for u32 {
+        open spec fn to_f32_spec(self) -> f32 { u32_to_f32(self) }
+        #[verifier::external_body] fn cast_f32_m(self) -> (r: f32) { self as f32 }
+    }
+    pub fn cast_f32<T: CastF32>(x: T) -> (r: f32) ensures r == x.to_f32_spec() { x.cast_f32_m() }
+    pub uninterp spec fn f32_to_usize_spec(x: f32) -> usize;
+    #[verifier::external_body]
+    pub fn f32_to_usize(x: f32) -> (r: usize) ensures r == f32_to_usize_spec(x) { x as usize }
     #[allow(unused_imports)] use vstd::std_specs::ops::*;
     #[allow(unused_imports)] use vstd::std_specs::cmp::*;
 
